@@ -128,7 +128,7 @@ class Real:
         elif self.kind == "lateral":
             self.inshape = self.outshape = shp(args[0])
             self.conn = LinearLateral(self.inshape, dt, synapse=ctor, bias=args[1] == "T",
-                                      delay=(2.0 * dt if args[2] == "T" else None), batch_size=1,
+                                      delay=(2.0 * dt if args[2] == "T" else 0.0 if args[2] == "Z" else None), batch_size=1,
                                       weight_init=torch.zeros_like, bias_init=torch.zeros_like)
             self.conn.updater = self.conn.defaultupdater()
         elif self.kind == "conv":
@@ -334,13 +334,28 @@ def linear_case(rng, kind=None, boundary=None):
     return lines
 
 
+def _canon_line(line: str) -> str:
+    if line.startswith("begin lateral "):
+        t = line.split(" ")
+        if len(t) > 4 and t[4] == "Z":
+            t[4] = "T"
+        return " ".join(t)
+    return line
+
+
+seqcheck.DRIVER_MAP["drivers/C05.lean"] = _canon_line
+
+
 def lateral_seq_case(rng, n_ops=None, shape=None):
     shape = shape or randshape(rng, 2, 3, 5)
     n = math.prod(shape)
     delayed = rng.random() < 0.7
     biased = rng.random() < 0.4
     syn = rand_syn(rng)
-    lines = [f"begin lateral {shp_s(shape)} {b(biased)} {b(delayed)} {syn_tok(syn)}", "params"]
+    # "Z": constructed with `delay=0.0` — the delay parameter exists (and must stay masked) although no delay is in effect yet;
+    # for the model this is a connection with a delay parameter ("T")
+    dtag = "Z" if (delayed and rng.random() < 0.3) else b(delayed)
+    lines = [f"begin lateral {shp_s(shape)} {b(biased)} {dtag} {syn_tok(syn)}", "params"]
 
     def parts(lo, hi):
         k = rng.choice([0, 1, 1, 2, 3])
@@ -574,7 +589,7 @@ def replay(ctx, data) -> int:
         print("replay file has no op sequence (proof/tie breakage without failing input):", data.get("broken"))
         return 1
     real = seqcheck.exec_real(Real, case)
-    resp = ctx.run_driver(DRIVER, case)
+    resp = ctx.run_driver(DRIVER, seqcheck.to_driver(DRIVER, case))
     for l, r, d in zip(case, real, resp):
         print(f"{l}\n    real: M {r[0]} || S {r[1]}\n    lean: {d}")
     d = seqcheck.compare_case(case, real, resp)
